@@ -26,7 +26,9 @@ CONTRACTS.update({
              ('code-of-the-dtype', 'implies(dt is not None, self._value is not None and self._value.value == dtype_code(dt.name))')],
     exc_ensures=[('unchanged-when-rejected', 'self._value is old(self._value) or self._value == old(self._value)')]),
  'ChannelItem._set_cast_dtype': dict(
-    props=['C08', 'C20'], self_fields=CH_FIELDS, params={'dt': 'oneof[none,opq:dtype]'}, returns='none',
+    # C03 too: the chunk dtype is taken from the channels' cast dtypes BEFORE the per-write set-up (known_channel_dtypes_mapping), so
+    # "bit-exact under the declared code" needs the cast dtype that built the wrapper to stay the channel's dtype (round 7, C03-M)
+    props=['C08', 'C20', 'C03'], self_fields=CH_FIELDS, params={'dt': 'oneof[none,opq:dtype]'}, returns='none',
     modifies=['self._cast_dtype', 'self.representation_code._value'],
     requires=[CODE_MATCHES],
     raises={'ValueError': 'dt is not None and dtype_code(dt.name) == -1'},
@@ -34,7 +36,7 @@ CONTRACTS.update({
     exc_ensures=[('rejected-dtype-leaves-no-trace', 'self._cast_dtype is old(self._cast_dtype)'),
                  ('code-still-matches-after-rejection', CODE_MATCHES)]),
  'ChannelItem._set_repr_code_from_data': dict(
-    props=['C08'], self_fields=CH_FIELDS, params={'sub_data': 'opq:ndarray'}, returns='none',
+    props=['C08', 'C03'], self_fields=CH_FIELDS, params={'sub_data': 'opq:ndarray'}, returns='none',
     modifies=['self._cast_dtype', 'self.representation_code._value'],
     requires=[CODE_MATCHES],
     raises={'ValueError': 'self._cast_dtype is None and dtype_code(sub_data.dtype.name) == -1'},
@@ -42,7 +44,7 @@ CONTRACTS.update({
              ('user-cast-kept', 'implies(old(self._cast_dtype) is not None, self._cast_dtype is old(self._cast_dtype))'),
              ('source-dtype-used-without-cast', 'implies(old(self._cast_dtype) is None, self._cast_dtype is sub_data.dtype)')]),
  'ChannelItem.set_dimension_and_repr_code_from_data': dict(
-    props=['C08'], self_fields=CH_FIELDS, params={'data': {'cls': 'SourceDataWrapper', 'fields': {}}}, returns='none',
+    props=['C08', 'C03'], self_fields=CH_FIELDS, params={'data': {'cls': 'SourceDataWrapper', 'fields': {}}}, returns='none',
     requires=[CODE_MATCHES],
     ghost={'dimension_compared': ('bool', 'False')},
     stubs={'__getitem__': dict(returns='opq:ndarray', raises=True, pure=True),
